@@ -3,11 +3,13 @@ package props
 // C03 — after a reorg the table converges to the canonical chain; orphaned rows vanish.
 
 import (
+	"context"
 	"fmt"
 	"math/big"
 	"strings"
 	"testing"
 
+	"github.com/indexsupply/shovel/shovel"
 	"pgregory.net/rapid"
 
 	"verifharness/evid"
@@ -170,6 +172,9 @@ func reorgProperty(rt *rapid.T, ev *evid.Rec, o machineOpts, prop string) {
 		m.doReorg(st, s, head-uint64(depth)+1, p.txs, true)
 		return nil
 	})
+	// (The per-commit Auditor of C01/C02 is not used here: a reorg landing between
+	// two RPC calls of a step legitimately produces rows that mix two versions of a
+	// block until the next step unwinds them; the claim of C03/C04 is about quiescence.)
 	checkCommits := func(p *Pair, r StepResult) {
 		if r.Panic != nil {
 			fail("Converge panicked: %v", r.Panic)
@@ -218,7 +223,7 @@ func reorgProperty(rt *rapid.T, ev *evid.Rec, o machineOpts, prop string) {
 			checkCommits(p, m.step(p))
 		}
 	}
-	nact := rapid.IntRange(3, 16).Draw(rt, "nactions")
+	nact := rapid.IntRange(3, scale(16, 40)).Draw(rt, "nactions")
 	for i := 0; i < nact; i++ {
 		switch rapid.IntRange(0, 11).Draw(rt, "action") {
 		case 0:
@@ -251,6 +256,34 @@ func reorgProperty(rt *rapid.T, ev *evid.Rec, o machineOpts, prop string) {
 			p := m.pickPair("steppair")
 			checkCommits(p, m.step(p))
 			pending = nil
+		case 8:
+			// the position history is pruned (shovel does this every ten minutes, keeping 200)
+			keep := rapid.IntRange(1, 4).Draw(rt, "keep")
+			// only while no reorg is waiting to be noticed: pruning the history a pending
+			// unwind needs puts the fork outside "the retained position history"
+			pendingReorg := false
+			for _, p := range w.Pairs {
+				c := w.Cursor(p)
+				if !c.OK {
+					continue
+				}
+				p.Src.Node.Lock()
+				b := p.Src.Node.Chain.At(c.Num)
+				p.Src.Node.Unlock()
+				if b == nil || string(b.Hash) != string(c.Hash) {
+					pendingReorg = true
+				}
+			}
+			if pendingReorg {
+				m.logf("prune skipped: a recorded position is not canonical")
+				continue
+			}
+			st.floor, st.hasFloor = map[string]uint64{}, map[string]bool{}
+			if err := shovel.PruneTask(context.Background(), w.pool, keep); err != nil {
+				rt.Fatalf("VERIF-VIOLATION property=%s PruneTask failed: %v", prop, err)
+			}
+			m.logf("prune positions, keep %d", keep)
+			m.label("pruned")
 		case 7:
 			if rapid.IntRange(0, 2).Draw(rt, "restart") == 0 {
 				if err := w.Restart(); err != nil {
